@@ -207,6 +207,9 @@ func (ep *freeEndpoint) handshake() []byte {
 			isn := 0x10000000 + uint32(len(w.synacks))<<20
 			seg := codec.TCPSeg{SrcPort: la.Port(), DstPort: remote.Port(), Seq: 777, Ack: isn, Flags: codec.FlagSYN | codec.FlagACK, Window: 65535,
 				Options: []byte{2, 4, 0xff, 0xd7, 4, 2, 1, 1}}
+			if w.sc.Knobs.FreeTimestamps {
+				seg.Options = append(append([]byte{2, 4, 0xff, 0xd7, 4, 2}, codec.TimestampOption(555000, 1234)...), 1, 3, 3, 7)
+			}
 			t := codec.BuildTCP(la.Addr(), remote.Addr(), seg)
 			w.synacks = append(w.synacks, codec.BuildIPv4(la.Addr(), remote.Addr(), codec.ProtoTCP, 64, codec.V4Opts{Flags: 2}, t))
 		}
@@ -261,7 +264,14 @@ func (ep *freeEndpoint) build(p freePlan) []byte {
 	fw := &World{Sc: ep.w.sc, Stats: map[string]int{}}
 	fe := &Endpoint{Idx: ep.idx}
 	if r.Form == "sack" {
-		fe.Conn = &acceptedConn{isn: ep.isn}
+		// the connection's initial sequence number, as the probe itself tells it (ISN + ttl)
+		fe.Conn = &acceptedConn{isn: pr.L4.Seq - uint32(ip.TTL)}
+		if ep.w.sc.Knobs.FreeTimestamps {
+			// the target's timestamp clock has ticked since its SYN-ACK, and goes on ticking
+			fe.lis = &lisState{L: &Listener{Timestamps: true}}
+			_, np := ep.probeLoad(pb[:0])
+			fe.tsTick = uint32(np)
+		}
 	}
 	b, ok := fw.buildReply(fe, pr, hp, r)
 	if !ok {
